@@ -13,6 +13,45 @@ pub enum PushInterpreterState {
 
 pub struct PushInterpreter {}
 
+/// Observation hook for external runtime monitors (feature `verif`, off by default).
+/// A thread-local observer is told about the progress of `PushInterpreter::run`.
+#[cfg(feature = "verif")]
+pub mod verif {
+    use crate::push::state::PushState;
+    use std::cell::RefCell;
+
+    #[derive(Debug, Clone, PartialEq)]
+    pub enum RunEvent {
+        /// Emitted after the program was copied to the CODE stack.
+        Start,
+        /// Emitted after every completed step that did not empty the EXEC stack.
+        Step {
+            counter: i32,
+            size_before: usize,
+            size_after: usize,
+            elapsed_ms: u128,
+        },
+        /// Emitted right before run() returns.
+        End { outcome: &'static str, counter: i32 },
+    }
+
+    thread_local! {
+        pub static OBSERVER: RefCell<Option<Box<dyn FnMut(&RunEvent, &PushState)>>> = RefCell::new(None);
+    }
+
+    pub fn set_observer(obs: Option<Box<dyn FnMut(&RunEvent, &PushState)>>) {
+        OBSERVER.with(|o| *o.borrow_mut() = obs);
+    }
+
+    pub fn emit(ev: RunEvent, push_state: &PushState) {
+        OBSERVER.with(|o| {
+            if let Some(f) = o.borrow_mut().as_mut() {
+                f(&ev, push_state)
+            }
+        });
+    }
+}
+
 impl PushInterpreter {
     /// Copies execution stack to code stack
     pub fn copy_to_code_stack(push_state: &mut PushState) {
@@ -84,22 +123,42 @@ impl PushInterpreter {
         let icache = instruction_set.cache();
         let mut step_counter = 0;
         let start = Instant::now();
+        #[cfg(feature = "verif")]
+        verif::emit(verif::RunEvent::Start, push_state);
         loop {
             if step_counter > push_state.configuration.eval_push_limit {
+                #[cfg(feature = "verif")]
+                verif::emit(verif::RunEvent::End { outcome: "StepLimitExceeded", counter: step_counter }, push_state);
                 return PushInterpreterState::StepLimitExceeded;
             }
             if start.elapsed() > Duration::from_millis(push_state.configuration.eval_time_limit) {
+                #[cfg(feature = "verif")]
+                verif::emit(verif::RunEvent::End { outcome: "TimeLimitExceeded", counter: step_counter }, push_state);
                 return PushInterpreterState::TimeLimitExceeded;
             }
             let size_before_step = push_state.size();
             if PushInterpreter::step(push_state, instruction_set, &icache) {
                 break;
             }
+            #[cfg(feature = "verif")]
+            verif::emit(
+                verif::RunEvent::Step {
+                    counter: step_counter,
+                    size_before: size_before_step,
+                    size_after: push_state.size(),
+                    elapsed_ms: start.elapsed().as_millis(),
+                },
+                push_state,
+            );
             if push_state.size() > size_before_step + push_state.configuration.growth_cap as usize {
+                #[cfg(feature = "verif")]
+                verif::emit(verif::RunEvent::End { outcome: "GrowthCapExceeded", counter: step_counter }, push_state);
                 return PushInterpreterState::GrowthCapExceeded;
             }
             step_counter += 1;
         }
+        #[cfg(feature = "verif")]
+        verif::emit(verif::RunEvent::End { outcome: "NoErrors", counter: step_counter }, push_state);
         PushInterpreterState::NoErrors
     }
 }
